@@ -41,6 +41,8 @@ type params struct {
 	BigSplit  bool        `json:"split_with_1001_files"`
 	Seed      int64       `json:"seed"`
 	MaxOrders int         `json:"max_orders"`
+	// Batch > 0: the commit lists the splits with this page size (a page may end between the two state files of a split)
+	Batch int `json:"listing_batch_size,omitempty"`
 }
 
 func gen11(seed int64, tier string) []drv.Case {
@@ -72,6 +74,9 @@ func gen11(seed int64, tier string) []drv.Case {
 			sp = append(sp, splitSpec{ID: id, Files: fs})
 		}
 		p := params{Splits: sp, UploadSeq: r.Perm(k), Seed: r.Int63(), MaxOrders: 24}
+		if i%3 == 1 {
+			p.Batch = []int{1, 2, 3, 4, 5, 7}[r.Intn(6)]
+		}
 		if (tier == "thorough" && i%30 == 0) || (tier != "thorough" && i == 3) {
 			p.BigSplit = true
 			p.MaxOrders = 6
@@ -267,7 +272,11 @@ func run11(c drv.Case, res *drv.Result) {
 		var cerr error
 		done := make(chan struct{})
 		go func() {
-			dm, cerr = env.Commit(a, "r", d.DiamondID, mode)
+			var copts []core.Option
+			if p.Batch > 0 {
+				copts = append(copts, core.BatchSize(p.Batch))
+			}
+			dm, cerr = env.Commit(a, "r", d.DiamondID, mode, copts...)
 			close(done)
 		}()
 		var arrival []string
